@@ -17,7 +17,7 @@ V = os.path.dirname(os.path.dirname(os.path.abspath(__file__)))
 REPO = os.environ.get('VERIF_REPO', '/repo')
 
 E1 = ['c13', 'c01', 'c02', 'c12']
-OTHERS = ['c05', 'c07', 'c08', 'c14', 'c15']
+OTHERS = ['c05', 'c05rt', 'c07', 'c08', 'c14', 'c14rt', 'c15']
 
 MUTANTS = [
     # (name, property, check, runs, file, old, new)
@@ -61,6 +61,12 @@ MUTANTS = [
     ('c14-status-escapes-live-object', 'C14', 'c14', 60, 'python/experiment/model/data.py',
      "            new_data['error-description'] = new_data['error-description'].encode('unicode_escape').decode('utf-8')\n        for key in sorted(new_data):\n            stream.write(\"%s=%s\\n\" % (key, new_data[key]))",
      "            self.data['error-description'] = self.data['error-description'].encode('unicode_escape').decode('utf-8')\n        for key in sorted(new_data):\n            stream.write(\"%s=%s\\n\" % (key, self.data[key]))"),
+    ('c14-instance-description-written-in-place', 'C14', 'c14rt', 192, 'python/experiment/model/conf.py',
+     "        temp_file = '%s.%s.tmp' % (instance_file, uuid.uuid4())\n", "        temp_file = instance_file\n"),
+    ('c14-status-written-in-place', 'C14', 'c14rt', 192, 'python/experiment/model/data.py',
+     "        tempname = os.path.join(self.outputDir, tempname)\n", "        tempname = self.outputFile\n"),
+    ('c14-output-listing-written-in-place', 'C14', 'c14rt', 384, 'python/experiment/runtime/output.py',
+     "            tempname = os.path.join(self.outputDir.path, tempname)\n", "            tempname = os.path.join(self.outputDir.path, 'output.txt')\n"),
 ]
 
 
